@@ -4,7 +4,7 @@ from __future__ import annotations
 from ..calls import Resolver
 from ..core import Report
 from ..model import Program
-from ..quantity_rules import (check_decimal_helpers, check_gates, check_mixed_arithmetic, check_numeric_memo, check_operators)
+from ..quantity_rules import (check_decimal_helpers, check_gates, check_mixed_arithmetic, check_numeric_memo, check_operators, check_quantity_ctor)
 
 TITLE = "Quantity operations obey dimensional analysis; incommensurables are rejected"
 
@@ -18,6 +18,7 @@ def run(rep: Report) -> None:
     rep.rule("R03.2", "Decimal helpers: the guard tests both operands, both branches apply the operator the name denotes, "
              "the Decimal branch converts both operands; no raw Decimal-vs-float arithmetic outside them", floor=6)
     rep.rule("R03.6", "no memoised function is keyed by numbers of several types (Decimal-ness of a result must not depend on call history)", floor=5)
+    rep.rule("R03.7", "Quantity.__init__ stores the magnitude and unit it is given (a unit text read as a quantity must fold its scale into the stored magnitude)", floor=2)
     rep.rule("R03.3", "dimension gates dominate: convert raises ConversionNotFound before anything else; __eq__/__lt__ "
              "return NotImplemented before any magnitude comparison or conversion; Measurement.__eq__ returns False", floor=5)
     rep.rule("R03.4", "every return of a Quantity operator is a Quantity or NotImplemented, never a number", floor=14)
@@ -27,6 +28,7 @@ def run(rep: Report) -> None:
     check_mixed_arithmetic(rep, prog, resolver, "R03.2")
     check_gates(rep, prog, "R03.3")
     check_numeric_memo(rep, prog, resolver, "R03.6")
+    check_quantity_ctor(rep, prog, "R03.7")
     rep.analysed["operator_returns"] = n
     rep.assume("q.in_unit(U) returns a quantity of unit U with unchanged physical value (C04 axiom)")
     rep.assume("Unit operators are the group operations (C02), a unit's dimension is the image of its factors (C01)")
